@@ -20,12 +20,13 @@ def seq(shape, v, n):
     return reactivex.concat(reactivex.from_iterable(xs), reactivex.throw(ERR)), xs, ERR
 
 
-@harness(instances=lambda tier: [{"bridge": b} for b in ("to_future", "run", "run_immediate")], shape=I(0, 1), n=I(0, 3), v=I(0, 9),
+@harness(instances=lambda tier: [dict({"bridge": b}, **({} if tier == "quick" else {"W": 6})) for b in ("to_future", "run", "run_immediate")],
+         shape=I(0, 1), n=I(0, lambda i: i.get("W", 3)), v=I(0, 9),
          timeout=(60, 300), stock=False)
 def h_last(a, inst):
     """to_future / run(): last element, the sequence's error, or SequenceContainsNoElementsError for an empty sequence"""
     n = a.n
-    for c in range(0, 4):
+    for c in range(0, inst.get("W", 3) + 1):
         if n == c:
             n = c
     val = falsy(a.v) if a.v < 8 else a.v
@@ -173,7 +174,7 @@ BOUNDS = {"quick": "sequences: empty / 1..3 elements / erroring after 0..3 eleme
                    "concurrent.futures.Future outcomes result (falsy values) / exception / cancelled / unsubscribed-first, resolved "
                    "before or after the subscription; start / to_async with a raising or returning function, converted function called "
                    "twice; from_callback with 0..3 callback arguments, with and without (raising) mapper, subscribed once or twice",
-          "thorough": "same with the thorough budget"}
+          "thorough": "to_future / run over sequences of up to 6 elements; the rest as in the quick tier"}
 ASSUMES = ["schedulers are passed explicitly (CurrentThread / Immediate / Tick virtual time) so that no real thread starts",
            "asyncio.Future (C object) and run() on its default NewThreadScheduler are outside: DESIGN §5",
            "from_callback with zero callback arguments emits the empty argument list"]
